@@ -673,7 +673,7 @@ def table_ops_for(all_lines, tid):
 
 
 def run(ck):
-    N_THEOREMS = 1
+    N_THEOREMS = 26
     proof_ok, failing = ck.proof_stage('MpVerif.C11.Props', 'MpVerif/C11/Props.lean', 'C11_',
                                         ['MpVerif/C11/*.lean'], expect_min=N_THEOREMS)
     ck.log('proof stage: ok=%s failing=%s' % (proof_ok, failing[:10]))
@@ -686,9 +686,9 @@ def run(ck):
     drv = ck.driver('drv_c11')
     rnd = random.Random(ck.seed * 1000003 + 11)
     quick = ck.tier == 'quick'
-    n_tables = 10 if quick else 40
-    n_wf = 1500 if quick else 12000
-    n_host = 2500 if quick else 25000
+    n_tables = 12 if quick else 60
+    n_wf = 4000 if quick else 40000
+    n_host = 8000 if quick else 90000
 
     lines = []
     meta = {}     # cid -> ('wf', tid, exp) | ('host', tid) | ('corpus', file)
@@ -728,7 +728,7 @@ def run(ck):
     for i in range(n_host):
         tid = rnd.choice(list(tables))
         cid = 'h%d' % i
-        lines.append(gen_hostile_case(rnd, cid, tid, tables[tid][1], p_unterminated=0.12))
+        lines.append(gen_hostile_case(rnd, cid, tid, tables[tid][1], p_unterminated=0.2))
         meta[cid] = ('host', tid)
     ops_path = os.path.join(BUILD, 'c11.%s.ops' % ck.tier)
     open(ops_path, 'w').write('\n'.join(lines) + '\n')
